@@ -9,10 +9,12 @@ from __future__ import annotations
 import copy
 import random
 import threading
+import weakref
 
 import numpy as np
 
 from simkit import procstate
+from simkit.addr import build_at_released_address
 from simkit import sched as simsched
 from simkit.core import Counter, EventLog, Violation, derive_seed, hash_array, hash_obj
 from simkit.rngseam import RngSeam
@@ -143,6 +145,8 @@ def _gen_op(rng, cfg):
         return ["edit", rng.randrange(1000), rng.choice(["points", "weights", "points", "weights", "indices", "degrees", "aux"]), rng.choice(EDIT_HOWS)]
     if kind == "reobserve":
         return ["reobserve", rng.randrange(1000)]
+    if kind == "drop":
+        return ["drop", rng.randrange(1000)]
     if kind == "restart":
         return ["restart", rng.choice(["all", "all", "angular", "coulomb"])]
     if kind == "tf_new":
@@ -172,7 +176,7 @@ def _gen_op(rng, cfg):
 
 BASE_KINDS = [
     ("ang", 10), ("atom", 7), ("pruned", 2), ("preset", 1), ("shell", 4), ("mol", 1.5), ("molctor", 1.5), ("use", 5), ("edit", 7),
-    ("reobserve", 3), ("restart", 2), ("tf_new", 2), ("tf_call", 6), ("coulomb", 3), ("perturb_rng", 1), ("invalid", 1.5),
+    ("reobserve", 3), ("drop", 1.5), ("restart", 2), ("tf_new", 2), ("tf_call", 6), ("coulomb", 3), ("perturb_rng", 1), ("invalid", 1.5),
 ]
 
 
@@ -232,6 +236,8 @@ class Ctx:
         self.sched = None
         self.n_ops = 0
         self.perturbed_tags = set()
+        self.released_ids = {}
+        self.steer = False
         self.coulomb_state = "cold"
         self.coulomb_perturbed = False
         self.any_fault_fired_keys = set()
@@ -344,7 +350,7 @@ def _is_readonly_error(exc):
 # ---- constructors shared by live execution and cold reference ------------------------------------
 
 
-def _build(ctx, recipe):
+def _build(ctx, recipe, live=False):
     """Build the object described by a constructing op (used live and in cold references)."""
     from grid.angular import AngularGrid
     from grid.atomgrid import AtomGrid
@@ -358,12 +364,35 @@ def _build(ctx, recipe):
     if kind == "atom":
         _, rspec, degspec, center, rotate, method = recipe
         rg = _rgrid(ctx, rspec)
-        c = np.array(center, dtype=float)
+        # argument *types* vary deterministically with the recipe: list / ndarray sequences, ndarray / list centre,
+        # Python / NumPy integer seed (the values are the same, so the model does not care)
+        flavour = derive_seed(0, "flavour", hash_obj(recipe)) % 4
+        c = np.array(center, dtype=float) if flavour % 2 == 0 else [float(v) for v in center]
+        rot = rotate  # (a NumPy integer seed passes AtomGrid.__init__'s check but is rejected further down - a C05 matter, not generated)
+        seq = (lambda v: list(v)) if flavour in (0, 3) else (lambda v: np.array(v, dtype=int))
         if degspec[0] == "default":
-            return AtomGrid(rg, center=c, rotate=rotate, method=method)
-        if degspec[0] == "deg":
-            return AtomGrid(rg, degrees=list(degspec[1]), center=c, rotate=rotate, method=method)
-        return AtomGrid(rg, degrees=None, sizes=list(degspec[1]), center=c, rotate=rotate, method=method)
+            args, kw = (rg,), {"center": c, "rotate": rot, "method": method}
+        elif degspec[0] == "deg":
+            args, kw = (rg,), {"degrees": seq(degspec[1]), "center": c, "rotate": rot, "method": method}
+        else:
+            args, kw = (rg, None), {"sizes": seq(degspec[1]), "center": c, "rotate": rot, "method": method}
+        # object-identity reuse as a simulated event: if the caller dropped an atomic grid just before, the new one is
+        # steered onto the released address (see simkit/addr.py)
+        held = ctx.released_ids.pop("atom", None) if (live and getattr(ctx, "steer", False)) else None
+        target = None
+        if held is not None:
+            # the dropped grid was kept alive by the simulator until this very moment
+            target = id(held)
+            wr = weakref.ref(held)
+            held = None
+            if wr() is not None:
+                target = None
+                ctx.probes.hit("dropped-atomgrid-still-referenced")
+        if target is not None:
+            g, landed = build_at_released_address(target, AtomGrid, args, kw)
+            ctx.probes.hit("atomgrid-built-at-released-address" if landed else "atomgrid-address-steering-missed")
+            return g
+        return AtomGrid(*args, **kw)
     if kind == "pruned":
         _, rspec, radius, r_sectors, secs, center, rotate, method = recipe
         rg = _rgrid(ctx, rspec)
@@ -569,7 +598,7 @@ def _op_construct(ctx, owner, op):
         warm_all &= _note_key(ctx, owner, key)
     had_fault = ctx.store.active()
     mark = ctx.mark()
-    oc = _outcome(lambda: _build(ctx, op))
+    oc = _outcome(lambda: _build(ctx, op, live=True))
     fired = ctx.fired_since(mark)
     if fired:
         for key in keys:
@@ -852,6 +881,25 @@ def _op_edit(ctx, owner, op):
     ctx.log.add(ctx.step, "edit", o.kind, attr, how)
 
 
+def _op_drop(ctx, owner, op):
+    """The caller lets go of an object (the only reference the harness holds): it is released right now."""
+    lst = ctx.objs.get(owner, [])
+    cands = [o for o in lst if o.kind in ("atom", "ang", "shellgrid", "mol")]
+    if not cands:
+        ctx.log.add(ctx.step, "drop", "skip")
+        return
+    o = cands[op[1] % len(cands)]
+    lst.remove(o)
+    kind = o.kind
+    if kind == "atom" and ctx.sched is None:
+        # released by the simulator right before the next atomic grid is built (object-identity reuse, simkit/addr.py)
+        ctx.released_ids["atom"] = o.obj
+        ctx.steer = True
+    o.obj = None
+    ctx.probes.hit("object-dropped:" + kind)
+    ctx.log.add(ctx.step, "drop", kind)
+
+
 def _op_reobserve(ctx, owner, op):
     o = ctx.pick(owner, ("ang", "atom", "mol", "shellgrid"), op[1])
     if o is None or o.dirty:
@@ -1068,7 +1116,7 @@ def _op_heal(ctx, owner, op):
 
 OPS = {
     "ang": _op_construct, "atom": _op_construct, "pruned": _op_construct, "preset": _op_construct,
-    "shell": _op_shell, "mol": _op_mol, "molctor": _op_molctor, "use": _op_use, "edit": _op_edit, "reobserve": _op_reobserve,
+    "shell": _op_shell, "mol": _op_mol, "molctor": _op_molctor, "use": _op_use, "edit": _op_edit, "reobserve": _op_reobserve, "drop": _op_drop,
     "restart": _op_restart, "tf_new": _op_tf_new, "tf_call": _op_tf_call, "coulomb": _op_coulomb,
     "invalid": _op_invalid, "perturb_rng": _op_perturb_rng, "arm": _op_arm, "heal": _op_heal,
 }
